@@ -210,13 +210,36 @@ def correspond(res):
     groups.append(("lazy", "list Z * list (list Z)", "fun c => list_eqb zlist_eqb (lazy_product (fst c)) (snd c)",
                    [f"({lst([zlit(s) for s in sizes])}, {lst([lst([zlit(v) for v in t]) for t in got])})" for sizes, got in lz_cases]))
 
-    # Hyperbolic pairing: oracle only
+    # Hyperbolic pairing: oracle only.  The inverse goes through a float root finder + bracketed bisection
+    # (numbers.upper_bound_a_n) whose failures are sparse (a narrowed bracket first fails at index 10673), so the
+    # sweep is contiguous and long, plus random windows further out; both directions.
     hp = P.HyperbolicPairing()
-    for z in range(0, 600 if tier == "quick" else 5000):
+    n_sweep = 24000 if tier == "quick" else 320000
+    seen_pairs = {}
+    hyp_bad = 0
+    for z in range(0, n_sweep):
         x, y = (int(v) for v in hp.projection2d(z))
         res.count(("hyp", z), nontrivial=z > 0, kind="hyperbolic")
-        if hp.pairing2d(x, y) != z or x < 0 or y < 0:
-            viol("HyperbolicPairing: pairing2d(projection2d(z)) != z", kind="hyp", z=z, got=[x, y])
+        back = hp.pairing2d(x, y)
+        if back != z or x < 0 or y < 0 or (x, y) in seen_pairs:
+            hyp_bad += 1
+            if hyp_bad <= 3:
+                viol("HyperbolicPairing: pairing2d(projection2d(z)) != z (or two indices share a pair)", kind="hyp", z=z, got=[x, y],
+                     back=int(back), other_index=seen_pairs.get((x, y)))
+        seen_pairs[(x, y)] = z
+    for _ in range(12 if tier == "quick" else 60):
+        z0 = rng.randrange(n_sweep, 40 * n_sweep)
+        for z in range(z0, z0 + 150):
+            x, y = (int(v) for v in hp.projection2d(z))
+            res.count(("hyp-w", z), kind="hyperbolic window")
+            if hp.pairing2d(x, y) != z or x < 0 or y < 0:
+                viol("HyperbolicPairing: pairing2d(projection2d(z)) != z", kind="hyp", z=z, got=[x, y])
+                break
+    for (x, y) in [(a, b) for a in range(60) for b in range(60)] + [(rng.randrange(0, 3000), rng.randrange(0, 3000)) for _ in range(200)]:
+        z = hp.pairing2d(x, y)
+        res.count(("hyp-p", x, y), nontrivial=(x, y) != (0, 0), kind="hyperbolic pairing2d")
+        if tuple(int(v) for v in hp.projection2d(z)) != (x, y):
+            viol("HyperbolicPairing: projection2d(pairing2d(x,y)) != (x,y)", kind="hyp", x=x, y=y, z=int(z))
 
     # StatesManager over increasing indices (1-d, 2-d, 3-d grids; centred or not) and as a state machine
     _states_manager(res, rng, viol, groups)
